@@ -68,6 +68,9 @@ def lattice_cases(thorough):
                 continue
             for call_op in (None, "sum"):
                 yield {"kind": "layer_order", "fn": "map", "setting": {"layers": list(seq), "call_operation": call_op}}
+                # ... and with all layers taken from one Datagroup, so that layers showing the same variable share one Array object
+                if n > 1:
+                    yield {"kind": "layer_order", "fn": "map", "setting": {"layers": list(seq), "call_operation": call_op, "shared_group": True}}
     for bins in ("neither", "layer", "call", "both"):
         for weights in ("neither", "layer", "call", "both"):
             for extra in ("neither", "layer", "call", "both"):
@@ -227,6 +230,7 @@ LAYER_KINDS = {
     "image-mean": ("density", None, "mean"),
     "image-nanmax": ("mass", None, "nanmax"),
     "image-plain": ("density", "contourf", None),
+    "image-density-nanmax": ("density", "contour", "nanmax"),
     "scatter": ("mass", "scatter", None),
     "vec-mean": ("velocity", "vec", "mean"),
 }
@@ -246,6 +250,8 @@ def _order_map(layers, op):
 def run_layer_order(acc, idx, c):
     st = c["setting"]
 
+    shared = make_mesh() if st.get("shared_group") else None
+
     def layer(kind, with_op=True):
         var, mode, op = LAYER_KINDS[kind]
         kw = {}
@@ -253,7 +259,7 @@ def run_layer_order(acc, idx, c):
             kw["mode"] = mode
         if op and with_op:
             kw["operation"] = op
-        return make_mesh().layer(var, **kw)
+        return (shared if (shared is not None and with_op) else make_mesh()).layer(var, **kw)
 
     try:
         p = _order_map([layer(k) for k in st["layers"]], st["call_operation"])
